@@ -104,6 +104,9 @@ impl<'a> Toks<'a> {
     }
 }
 
+fn debug_head<T: std::fmt::Debug>(x: &T) -> String {
+    format!("{:?}", x).chars().take_while(|c| c.is_ascii_alphanumeric()).collect()
+}
 pub fn show_native_err(e: &NativeError) -> String {
     match e {
         NativeError::FunctionNotFound(n) => format!("FunctionNotFound {}", hex(n)),
@@ -112,6 +115,8 @@ pub fn show_native_err(e: &NativeError) -> String {
         NativeError::IndexOutOfBounds(i) => format!("IndexOutOfBounds {}", i),
         NativeError::IndexNegative => "IndexNegative".into(),
         NativeError::CustomError(_) => "CustomError".into(),
+        #[allow(unreachable_patterns)]
+        other => format!("Other{}", debug_head(other)), // a variant added after this harness was written
     }
 }
 pub fn show_err(e: &Error) -> String {
@@ -136,6 +141,8 @@ pub fn show_err(e: &Error) -> String {
         Error::PreviousTokenNotFound => "PreviousTokenNotFound".into(),
         Error::InvalidToken(_) => "InvalidToken".into(),
         Error::TokenNotAnOperator(_) => "TokenNotAnOperator".into(),
+        #[allow(unreachable_patterns)]
+        other => format!("Other{}", debug_head(other)), // a variant added after this harness was written
     }
 }
 pub fn show_res(r: &Result<V, Error>) -> String {
